@@ -28,7 +28,7 @@ prop("C01", "exploration",
      "core/vm and on artela-evm (5 tracer/join-point configurations). Non-trivial = the reference run executed >= 8 "
      "instructions and (entered a nested frame or executed a state-changing opcode); distinct = distinct scenario JSON.",
      [{"test": "TestC01", "quick": {"checks": 6000, "shards": 2, "timeout": 600},
-       "thorough": {"checks": 60000, "shards": 16, "timeout": 7200}},
+       "thorough": {"checks": 35000, "shards": 16, "timeout": 7200}},
       {"fuzz": "FuzzC01", "thorough": {"fuzztime": "180s", "timeout": 1800}}])
 
 prop("C02", "exploration",
@@ -39,7 +39,7 @@ prop("C02", "exploration",
      "comparison is repeated per limit. Non-trivial = run contains a dynamic-gas opcode AND a swept limit changed the "
      "outcome w.r.t. the ample-gas run; distinct = distinct scenario JSON (incl. sweep selectors).",
      [{"test": "TestC02", "quick": {"checks": 1200, "shards": 4, "timeout": 600},
-       "thorough": {"checks": 12000, "shards": 16, "timeout": 7200}},
+       "thorough": {"checks": 7000, "shards": 16, "timeout": 7200}},
       {"fuzz": "FuzzC02", "thorough": {"fuzztime": "120s", "timeout": 1800}}])
 
 prop("C18", "exploration",
@@ -51,7 +51,7 @@ prop("C18", "exploration",
      "lookups, start/end and enter/exit must be balanced and LIFO and step depths must match the open frames. "
      "Non-trivial = a nested frame and a fault/revert occurred.",
      [{"test": "TestC18", "quick": {"checks": 2500, "shards": 4, "timeout": 600},
-       "thorough": {"checks": 25000, "shards": 16, "timeout": 7200}},
+       "thorough": {"checks": 15000, "shards": 16, "timeout": 7200}},
       {"fuzz": "FuzzC18", "thorough": {"fuzztime": "120s", "timeout": 1800}}])
 
 prop("C15", "exploration",
@@ -64,7 +64,7 @@ prop("C15", "exploration",
      "re-run on a generated pre-Cancun fork must raise invalid opcode at each of the three bytes. Non-trivial = an "
      "overlapping, memory-expanding MCOPY or a TLOAD of a key restored by a failed frame.",
      [{"test": "TestC15", "quick": {"checks": 4000, "shards": 2, "timeout": 600},
-       "thorough": {"checks": 40000, "shards": 16, "timeout": 7200}}])
+       "thorough": {"checks": 25000, "shards": 16, "timeout": 7200}}])
 
 TREE_CASES = ("cases = scenarios from three generators: scripted call trees (2-4 contracts, acyclic call graph plus "
               "re-entrant calls, all four call kinds, CREATE/CREATE2 with init scripts, value transfers, small fixed call gas, "
@@ -101,7 +101,7 @@ prop("C05", "exploration",
      "text, gas left by the callee's last instruction) equals that frame's; a bound no-op Aspect must actually run. "
      "Non-trivial = >= 2 firings with a bound Aspect and (empty calldata or value or a failing pre join point).",
      [{"test": "TestC05", "quick": {"checks": 700, "shards": 4, "timeout": 900},
-       "thorough": {"checks": 5000, "shards": 16, "timeout": 7200}}])
+       "thorough": {"checks": 4000, "shards": 16, "timeout": 7200}}])
 
 prop("C04", "fault_enumeration",
      "cases = scripted call trees (<= 8 frames per entry, Byzantium..Shanghai, 60% of calls carry value, effects before / "
@@ -117,7 +117,7 @@ prop("C04", "fault_enumeration",
      "ancestors; (3) metamorphic: succeeding Aspects / nothing bound == join points off. Non-trivial = a tree with >= 2 "
      "firing positions or a value-carrying frame that failed while its caller continued with a later effect.",
      [{"test": "TestC04", "quick": {"checks": 250, "shards": 4, "timeout": 900},
-       "thorough": {"checks": 2500, "shards": 16, "timeout": 7200}}])
+       "thorough": {"checks": 2000, "shards": 16, "timeout": 7200}}])
 
 prop("C06", "exploration",
      "cases = scripted call trees (budget 6, 35% of calls with small fixed gas so that Aspects can exhaust it) x real WASM "
@@ -131,7 +131,7 @@ prop("C06", "exploration",
      "frame, leftover gas differs from the run without Aspects by exactly the sum of reported burns. Non-trivial = some "
      "Aspect burned gas and the surrounding frame's gas was observed against it.",
      [{"test": "TestC06", "quick": {"checks": 600, "shards": 4, "timeout": 900},
-       "thorough": {"checks": 5000, "shards": 16, "timeout": 7200}}])
+       "thorough": {"checks": 2500, "shards": 16, "timeout": 7200}}])
 
 prop("C10", "exploration",
      "cases = scripted call trees (Byzantium..Cancun, all call kinds, creation, re-entrancy, failing frames, 1-3 "
@@ -243,7 +243,7 @@ prop("C12", "exploration",
      "INVALID in place of the journal instruction must have identical outcome INCLUDING gas and identical world state. "
      "Non-trivial = a journal instruction executed in a nested or static frame, or a malformed case.",
      [{"test": "TestC12", "quick": {"checks": 1500, "shards": 4, "timeout": 900},
-       "thorough": {"checks": 15000, "shards": 16, "timeout": 7200}}])
+       "thorough": {"checks": 9000, "shards": 16, "timeout": 7200}}])
 
 prop("C03", "exploration",
      "cases = five generators, all forks Frontier..Cancun, all six entry points, join points on with and without bound "
@@ -260,7 +260,7 @@ prop("C03", "exploration",
      "instructions beyond 1e5 reads (reported as unbounded work, C20's open finding). Non-trivial = a journal opcode "
      "executed, an Artela precompile reached, or an exceptional halt.",
      [{"test": "TestC03", "savelast": True, "quick": {"checks": 5000, "shards": 4, "timeout": 900},
-       "thorough": {"checks": 50000, "shards": 16, "timeout": 7200}},
+       "thorough": {"checks": 30000, "shards": 16, "timeout": 7200}},
       {"fuzz": "FuzzC03", "thorough": {"fuzztime": "120s", "timeout": 1500}}])
 
 prop("C20", "exploration",
@@ -276,7 +276,7 @@ prop("C20", "exploration",
      "observed (reported in the evidence). Instructions beyond 2e5 reads are cut off and reported. Non-trivial = a length "
      ">= 2^20 / a large payload, or an instruction that touched >= 2 state entries.",
      [{"test": "TestC20", "quick": {"checks": 1500, "shards": 4, "timeout": 900},
-       "thorough": {"checks": 15000, "shards": 16, "timeout": 7200}}])
+       "thorough": {"checks": 8000, "shards": 16, "timeout": 7200}}])
 
 prop("C16", "exploration",
      "cases = scripted scenarios (Byzantium..Cancun, 1-3 contracts, 2-8 journal blocks each that register several members "
@@ -302,7 +302,7 @@ prop("C16", "exploration",
      [{"test": "TestC16", "quick": {"checks": 350, "shards": 8, "timeout": 600},
        "thorough": {"checks": 3000, "shards": 16, "timeout": 7200}},
       {"test": "TestC16Tx", "quick": {"checks": 600, "shards": 8, "timeout": 600},
-       "thorough": {"checks": 40000, "shards": 16, "timeout": 7200}}])
+       "thorough": {"checks": 20000, "shards": 16, "timeout": 7200}}])
 
 prop("C17", "exploration",
      "cases = 3-10 scenarios per case (always the pair 'London without / with extra EIP-3855 executing PUSH0', plus generated "
@@ -316,7 +316,7 @@ prop("C17", "exploration",
      "the last instruction of its frame. Cross-goroutine variant (30%): another goroutine cancels after a generated number "
      "of observed steps (finite gas bounds the run; only safety is asserted). Non-trivial = >= 2 generated scenarios.",
      [{"test": "TestC17", "savelast": True, "quick": {"checks": 40, "shards": 4, "timeout": 900},
-       "thorough": {"checks": 400, "shards": 16, "timeout": 7200}}], race=True)
+       "thorough": {"checks": 200, "shards": 16, "timeout": 7200}}], race=True)
 
 # ---------------------------------------------------------------------------
 # Text for MANIFEST.json (gen_manifest.py)
